@@ -225,7 +225,9 @@ func (w *world) forgeCertificates(pr *proposal, vs lib.ValidatorSet, honest *lib
 				return
 			}
 			h2.Time += 1 + uint64(t.Intn(1000))
-			h2.Hash = nil
+			if _, e := h2.SetHash(); e != nil { // the second header is self-consistent: it carries its own hash
+				return
+			}
 			if hdr, e := lib.Marshal(h2); e == nil {
 				q2 := cloneQC(honest)
 				q2.Block = append(append([]byte(nil), pr.blockBz...), append(binary.AppendUvarint([]byte{0x0A}, uint64(len(hdr))), hdr...)...)
